@@ -124,8 +124,8 @@ example : observeAt heap 2 = observeAt (run Heap.empty (history.take 4)) 2
     ∧ observeAt heap 1 = observeAt (run Heap.empty (history.take 4)) 1 := by decide
 example : sharingEdges heap = [] ∧ writeSet (run Heap.empty (history.take 4)) heap = [0] := by decide
 
-/-- A step that violates the contracts — handing out a *view* of the operand's control points, as
-    `section()` does in its point case — breaks the invariant, shows up in the sharing graph, and
+/-- A step that violates the contracts — handing out a *view* of the operand's control points, the
+    unfixed shape of `section()`'s point case (repaired in the library since) — breaks the invariant, shows up in the sharing graph, and
     then a write through the operand IS observed through the result: the premise matters. -/
 def aliased : Heap := aliasView heap 0
 example : sepB aliased = false ∧ sharingEdges aliased = [(0, 3)] := by decide
